@@ -6,6 +6,31 @@ ROOT = os.path.dirname(os.path.dirname(os.path.abspath(__file__)))
 
 # id -> (level category, technique, level text, level note, design ref)
 CLAIMED = {
+    "C01": ("exploration",
+            "reference-model monitor: exact JSON-value comparison (O-JSON) of decode->encode on generated normal-form documents, coverage floor = every (kind, keyword) cell of the pinned meta-schemas",
+            "Executes the real codec on tens of thousands of generated normal-form documents (every optional keyword alone on a minimal carrier, then random combinations with hostile member names and payloads) and compares input and output as JSON values with exact numbers; each difference is classified per member so that known losses do not hide new ones; the run is inconclusive if any (kind, keyword) cell of the meta-schemas was never generated.",
+            "Trusts encoding/json for parsing the generic side, the generator's normal-form predicate, and the pinned copies of the two meta-schemas under /verif/oracle-data.",
+            "DESIGN.md §3 C01"),
+    "C06": ("exploration",
+            "runtime monitors on encodings: token scanner (validity, duplicate members), reflective conservation check of names/payloads between model value and text, 20 repeated encodings byte-compared, independent (x-order, name) sort",
+            "Every generated model value (decoded documents with hostile names and all x-order shapes; builder scripts with an expected document maintained alongside) is encoded 20 times under Go's randomised map iteration; the monitors check byte-identity, syntax, duplicate members, that the text says exactly what the model holds, and the order of properties.",
+            "Trusts encoding/json's tokenizer for scanning, reflection over the exported fields of the model for 'what the model holds', and the builder-script expectations written from the method documentation.",
+            "DESIGN.md §3 C06"),
+    "C07": ("exploration",
+            "crash-isolated totality monitor (panic recovery, fatal-crash and confirmed-hang detection by the supervisor) plus byte-wise fixed-point check E(D(E(D(x))))==E(D(x)) over structure-aware mutants",
+            "Structure-aware mutants of generated documents (wrong types, nulls, duplicates, extreme numbers, nesting to depth 2000/5000, odd reference strings, byte damage) are decoded into each of 28 exported model types in worker processes that log each case before running it, so a panic, a fatal stack overflow or a hang is attributed to its input; successful decodes are re-encoded, re-decoded and compared byte for byte.",
+            "Hang = chunk watchdog plus the same case alone exceeding 120 s; stack exhaustion = worker death (max stack 256 MB). Inputs whose member names case-fold onto a keyword are checked for totality only, as the property states.",
+            "DESIGN.md §3 C07"),
+    "C13": ("exploration",
+            "reference-model monitor over an enumerated grammar of reference strings: idempotence of canonicalisation, flag/pointer equality, JSON shape and JSON/gob round trips compared field by field",
+            "The full product of a reference-string grammar (scheme case x authority forms x path shapes x query x fragment shapes, ~225 000 strings) plus seeded random strings is pushed through NewRef/String/JSON/gob and every law of the property is checked on each string.",
+            "Strings NewRef rejects are outside the domain; equality of references is field-wise over text, the five flags, IsRoot/IsCanonical, pointer tokens and URL components.",
+            "DESIGN.md §3 C13"),
+    "C14": ("exploration",
+            "reference-model monitor: JSON(v) before vs after a real gob encode/decode, compared as JSON values and classified per member/value class",
+            "Generated documents with gob-fragile content (nested nulls and empty containers in free-form payloads, zero-valued validations on all carriers, the security shapes absent/[]/[{}]/empty scope lists, union types, references) are decoded, sent through encoding/gob and compared with their pre-transport JSON; two genuine baseline defects (zero validations, empty arrays) are listed as known findings by value class so any other loss is still reported.",
+            "Documents the JSON codec itself rejects are skipped; trusts encoding/json for the comparison form.",
+            "DESIGN.md §3 C14"),
     "C20": ("exploration",
             "reference-model monitor (flat keyword map) over exhaustively enumerated validation subsets and clear orders on the real carriers",
             "Every subset of validation keywords on each carrier, every order of the clear operations and 0-3 callbacks are executed against the real accessors and compared, call by call, with a 30-line flat-map model; subsets and orders are enumerated completely, value assignments are sampled.",
